@@ -8,6 +8,7 @@ import Mochi.Driver.WsConn
 import Mochi.Driver.Codec
 import Mochi.Driver.Broker
 import Mochi.Driver.BrokerSpec
+import Mochi.Driver.Reader
 open Mochi.Driver
 
 structure DState where
@@ -28,7 +29,7 @@ def answer (st : DState) (line : String) : DState × String :=
   match ws with
   | ["reset"] => ({}, "-\tok\t-")
   | _ =>
-    match (varintOp impl ws <|> keepaliveOp impl ws <|> wsOp impl ws <|> codecOp impl ws) with
+    match (varintOp impl ws <|> keepaliveOp impl ws <|> wsOp impl ws <|> codecOp impl ws <|> readerOp impl ws) with
     | some r => (st, fmt r)
     | none =>
       match topicsOp st.topics impl ws with
